@@ -507,7 +507,10 @@ def _simplify(t):
             v = base[2]
             if inner[0] == "call" and inner[1].endswith("::branch") and "Try" in inner[1]:
                 if v == "Continue":
-                    return ("okpayload", inner[2][0])
+                    src = inner[2][0]
+                    if isinstance(src, tuple) and src[0] == "agg" and src[1] == "adt" and src[3] in ("Ok", "Some") and len(src[4]) == 1:
+                        return src[4][0]      # `Some(x)?` / `Ok(x)?` is x
+                    return ("okpayload", src)
                 if v == "Break":
                     return ("errresidual", inner[2][0])
             if inner[0] == "agg" and inner[1] == "adt" and inner[3] == v and len(inner[4]) > 0:
@@ -602,12 +605,21 @@ def fold(t):
         if isinstance(a, tuple) and a[0] == "call" and a[1].endswith("FromResidual<std::result::Result<std::convert::Infallible, E>>>::from_residual"):
             # a Result built from a residual is always Err: `?` on it (e.g. after inlining a helper) takes the Break arm
             return ("agg", "adt", "std::ops::ControlFlow", "Break", (a,), ("0",))
+    elif k == "call" and len(t[2]) == 1 and t[1].endswith("Option<T> as std::ops::Try>::branch"):
+        a = t[2][0]
+        if isinstance(a, tuple) and a[0] == "agg" and a[1] == "adt" and a[2] == "std::option::Option":
+            if a[3] == "Some":
+                return ("agg", "adt", "std::ops::ControlFlow", "Continue", a[4], ("0",))
+            if a[3] == "None":
+                return ("agg", "adt", "std::ops::ControlFlow", "Break", (a,), ("0",))
     elif k == "call" and len(t[2]) == 1 and t[1].endswith("slice::<impl [T]>::len"):
         a = t[2][0]
         if isinstance(a, tuple) and a[0] == "const" and a[1][0] == "bytes":
             return ("const", ("int", len(a[1][1]), "usize"))
     elif k == "discr":
         inner = t[1]
+        if isinstance(inner, tuple) and inner[0] == "call" and inner[1].endswith("FromResidual<std::result::Result<std::convert::Infallible, E>>>::from_residual"):
+            return ("const", ("int", 1, "isize"))     # a Result built from a residual is an Err
         if isinstance(inner, tuple) and inner[0] == "agg" and inner[1] == "adt":
             std = {"std::option::Option": {"None": 0, "Some": 1}, "std::result::Result": {"Ok": 0, "Err": 1},
                    "std::ops::ControlFlow": {"Continue": 0, "Break": 1}}
@@ -869,6 +881,18 @@ def _expand_and_then(B, bi, t, by_path):
     return True
 
 
+_GEN_RX = re.compile(r"<(?:'?[A-Za-z_]\w*)(?:, '?[A-Za-z_]\w*)*>")
+
+
+def _norm_generics(path):
+    """`PacketConn::<W>::f` and `PacketConn::<RW>::f` are the same function"""
+    prev = None
+    while prev != path:
+        prev = path
+        path = _GEN_RX.sub("<_>", path)
+    return path
+
+
 def _has_loop(C):
     """does the (raw) body have a cycle along normal edges?"""
     succ = {}
@@ -901,12 +925,93 @@ def _has_loop(C):
     return False
 
 
+def _expand_map(B, bi, t, by_path, adts, kind):
+    """`dest = r.map(F)` for a Result/Option `r` and F a tuple-variant constructor or a local closure becomes
+         switch discriminant(r) { Ok/Some => dest = Ok/Some(F(payload)), Err/None => dest = Err(payload)/None }."""
+    if len(t["args"]) != 2 or t.get("t") is None:
+        return False
+    r_pl = t["args"][0].get("move") or t["args"][0].get("copy")
+    if r_pl is None or r_pl["p"]:
+        return False
+    f = t["args"][1]
+    ctor = None
+    co = None
+    c = f.get("const")
+    if c is not None and "fn" in c:
+        path = c["fn"]["path"]
+        adt, _, vname = path.rpartition("::")
+        a = adts.get(adt)
+        if a is not None:
+            for v in a["variants"]:
+                if v["name"] == vname and len(v["fields"]) == 1:
+                    ctor = (adt, v["idx"], vname)
+    if ctor is None:
+        co = _closure_of_operand(B, bi, f)
+        if co is None or co[0] not in by_path or by_path[co[0]]["arg_count"] != 2:
+            return False
+    rty = B["locals"][r_pl["l"]].get("ty", "")
+    line = t.get("line", 0)
+    ok_name, ok_idx = ("Ok", 0) if kind == "Result" else ("Some", 1)
+    er_name, er_idx = ("Err", 1) if kind == "Result" else ("None", 0)
+    wrap_adt = "std::result::Result" if kind == "Result" else "std::option::Option"
+    bo = len(B["blocks"])
+    B["locals"] = B["locals"] + [{"ty": "isize"}, {"ty": "?mapped"}]
+    dl, ml = len(B["locals"]) - 2, len(B["locals"]) - 1
+    payload = {"move": {"l": r_pl["l"], "p": [{"dc": ok_idx, "n": ok_name}, {"f": 0, "n": "0", "ty": "", "of": rty}]}}
+    wrap_blk = {"cleanup": False, "stmts": [
+        {"k": "assign", "lhs": t["dest"], "rv": {"k": "agg", "ak": "adt", "adt": wrap_adt, "variant": ok_idx, "vname": ok_name, "fnames": ["0"], "active": None,
+                                                 "fields": [{"move": {"l": ml, "p": []}}]}, "line": line, "exp": None}],
+        "term": {"k": "goto", "t": t["t"], "line": line, "exp": None}}
+    if kind == "Result":
+        er_fields = [{"move": {"l": r_pl["l"], "p": [{"dc": 1, "n": "Err"}, {"f": 0, "n": "0", "ty": "", "of": rty}]}}]
+    else:
+        er_fields = []
+    err_blk = {"cleanup": False, "stmts": [
+        {"k": "assign", "lhs": t["dest"], "rv": {"k": "agg", "ak": "adt", "adt": wrap_adt, "variant": er_idx, "vname": er_name, "fnames": ["0"] if er_fields else [], "active": None,
+                                                 "fields": er_fields}, "line": line, "exp": None}],
+        "term": {"k": "goto", "t": t["t"], "line": line, "exp": None}}
+    if ctor is not None:
+        ok_blk = {"cleanup": False, "stmts": [
+            {"k": "assign", "lhs": {"l": ml, "p": []}, "rv": {"k": "agg", "ak": "adt", "adt": ctor[0], "variant": ctor[1], "vname": ctor[2], "fnames": ["0"], "active": None,
+                                                             "fields": [payload]}, "line": line, "exp": None}],
+            "term": {"k": "goto", "t": bo + 1, "line": line, "exp": None}}
+        B["blocks"] = B["blocks"] + [ok_blk, wrap_blk, err_blk]
+        ok_t, er_t = bo, bo + 2
+    else:
+        C = by_path[co[0]]
+        lo = len(B["locals"])
+        B["locals"] = B["locals"] + [dict(l) for l in C["locals"]]
+        _SUB.clear()
+        _POWNER[0] = co[0]
+        body_blocks = _copy_body(B, C, lo, bo + 3, {"l": ml, "p": []}, bo + 1, line)
+        _POWNER[0] = None
+        ok_stmts = []
+        if co[1] is not None:
+            if str(C["locals"][1].get("ty", "")).startswith("&"):
+                ok_stmts.append({"k": "assign", "lhs": {"l": lo + 1, "p": []}, "rv": {"k": "ref", "place": {"l": co[1], "p": []}, "mut": str(C["locals"][1]["ty"]).startswith("&mut")}, "line": line, "exp": None})
+            else:
+                ok_stmts.append({"k": "assign", "lhs": {"l": lo + 1, "p": []}, "rv": {"k": "use", "op": {"move": {"l": co[1], "p": []}}}, "line": line, "exp": None})
+        ok_stmts.append({"k": "assign", "lhs": {"l": lo + 2, "p": []}, "rv": {"k": "use", "op": payload}, "line": line, "exp": None})
+        ok_blk = {"cleanup": False, "stmts": ok_stmts, "term": {"k": "goto", "t": bo + 3, "line": line, "exp": None}}
+        B["blocks"] = B["blocks"] + [ok_blk, wrap_blk, err_blk] + body_blocks
+        ok_t, er_t = bo, bo + 2
+    blk = B["blocks"][bi]
+    blk["stmts"].append({"k": "assign", "lhs": {"l": dl, "p": []}, "rv": {"k": "discr", "place": {"l": r_pl["l"], "p": []}, "of": rty}, "line": line, "exp": None})
+    if kind == "Result":
+        vals, tgts, oth = ["0", "1"], [ok_t, er_t], er_t
+    else:
+        vals, tgts, oth = ["0", "1"], [er_t, ok_t], er_t
+    blk["term"] = {"k": "switch", "discr": {"move": {"l": dl, "p": []}}, "vals": vals, "tgts": tgts, "otherwise": oth, "line": line, "exp": None, "inlined": "map"}
+    return True
+
+
 def inline_helpers(facts, is_new, max_rounds=4):
     """Inline calls to `new helper` functions (local bodies for which is_new(path) holds) into their callers, on
     the raw exported MIR: the callee's locals and blocks are appended (renumbered), arguments become assignments
     to the callee's parameter locals, `return` becomes an assignment of its `_0` to the call's destination and a
     goto.  Makes helper-extraction refactorings transparent to the rules.  Returns the list of inlined (caller, callee)."""
     by_path = {b["path"]: b for b in facts["bodies"]}
+    adts = {a["path"]: a for a in facts.get("adts", [])}
     done = []
     for _round in range(max_rounds):
         changed = False
@@ -922,6 +1027,11 @@ def inline_helpers(facts, is_new, max_rounds=4):
                 if cal == "std::result::Result::<T, E>::and_then" and "::tests::" not in B["path"]:
                     if _expand_and_then(B, bi, t, by_path):
                         done.append((B["path"], "and_then"))
+                        changed = True
+                    continue
+                if cal in ("std::result::Result::<T, E>::map", "std::option::Option::<T>::map") and "::tests::" not in B["path"]:
+                    if _expand_map(B, bi, t, by_path, adts, "Result" if "Result" in cal else "Option"):
+                        done.append((B["path"], "map"))
                         changed = True
                     continue
                 if cal == B["path"] or cal not in by_path or not is_new(cal):
@@ -975,9 +1085,10 @@ class Program:
         try:
             import os
             kp = os.path.join(os.path.dirname(os.path.dirname(os.path.abspath(__file__))), "spec", "known_fns.json")
-            known = set(json.load(open(kp))["fns"])
+            known = {_norm_generics(x) for x in json.load(open(kp))["fns"]}
             def is_new(path):
-                return path not in known and "::tests::" not in path and "{closure" not in path
+                # generic parameter names are not part of a function's identity (moving a method between impl blocks renames them)
+                return _norm_generics(path) not in known and "::tests::" not in path and "{closure" not in path
             self.inlined = inline_helpers(facts, is_new)
             if self.inlined:
                 gone = {c for _, c in self.inlined}
